@@ -5,7 +5,7 @@ values == [g(i)], every task started exactly once, the batches handed to the
 backend concatenate to the input sequence, no deadlock / hang.
 """
 import random
-from sim.harness import H
+from sim.harness import H, hz_runs
 from sim import detsched as ds
 from . import par_common as pc
 
@@ -44,7 +44,7 @@ def gen_case(rng):
 
 
 def plan(tier, seed):
-    for i in range(N_RUNS[tier]):
+    for i in range(hz_runs(N_RUNS, tier)):
         yield gen_case(random.Random(H(seed, PROP, i)))
 
 
